@@ -49,7 +49,8 @@ EXPECTED_PROBES = ["partial_last_batch", "batch_larger_than_set", "grid_invert_b
                    "grid_truncated_to_n_val", "random_split", "n_val_rounds_to_zero", "reset_reseeded",
                    "workload_A", "workload_B", "workload_C", "ratio_out_of_range", "train_empty",
                    "negative_control_differs", "val_split_in_loop", "reset_after_continue",
-                   "seed_given_as_generator"]
+                   "seed_given_as_generator", "n_beyond_int16", "n_beyond_uint16", "fifth_epoch_or_later",
+                   "seed_ge_2_32"]
 
 _ctx = {}
 
@@ -115,6 +116,18 @@ def gen(rng: Rng, tier, i):
                          "kinds": [r.pick(simsched.PERM_KINDS) for _ in range(5)],
                          "seed": r.randrange(10 ** 6),
                          "gb": [r.randrange(1, 60), r.randrange(1, 12), r.randrange(0, 9)]})
+            if r.chance(0.1):       # later epochs; tilings of many items from a large start index
+                cfgs[-1]["epochs"] = r.pick([5, 6, 9])
+                cfgs[-1]["gb"] = [r.pick([255, 256, 1000, 65537, 10 ** 5 + 3]), r.pick([1, 7, 11, 300]),
+                                  r.pick([0, 2 ** 31 - 5, 2 ** 33, 10 ** 12])]
+        big = rng.fork("big")
+        if big.chance(0.5):         # pattern counts around the 16/17-bit index boundaries
+            n = big.pick([32767, 32768, 32769, 65535, 65536, 65537, 70001, (1 << 17) + 3])
+            cfgs.append({"n": n, "b": big.pick([n, n // 2, 255, 256, 257, 32768, 65536, 1000, None]),
+                         "shuffle": big.chance(0.8), "ratio": big.pick([0.0, 0.1, 0.5, 0.75, 0.3333]),
+                         "mode": big.pick(["grid", "random"]), "epochs": big.pick([1, 2]),
+                         "kinds": [big.pick(simsched.PERM_KINDS) for _ in range(5)],
+                         "seed": big.randrange(10 ** 6), "gb": [n, 9, 3]})
         return {"w": "A", "cfgs": cfgs}
     if w == "B":
         return {"w": "B", "data_seed": rng.randrange(1000), "scan": rng.pick([[6, 6], [4, 6], [3, 9]]),
@@ -128,7 +141,9 @@ def gen(rng: Rng, tier, i):
                                   ["object", "probe", "dataset"]]),
                 "tv": rng.pick([0.0, 0.0, 1e-3])}
     return {"w": "C", "data_seed": rng.randrange(1000), "scan": rng.pick([[6, 6], [5, 7]]),
-            "seed": rng.randrange(10 ** 6), "b": rng.pick([5, 7, 10, 16, 35, 1, 36, 40]),
+            "seed": rng.fork("seedval").pick([rng.randrange(10 ** 6)] * 5 + [
+                0, 1, 2 ** 32, 2 ** 32 + 7, 2 ** 53 + 1, 2 ** 63 - 1]),
+            "b": rng.pick([5, 7, 10, 16, 35, 1, 36, 40]),
             "ratio": rng.pick([0.0, 0.2, 0.25, 0.5]), "mode": rng.pick(["grid", "random"]),
             "iters": rng.pick([2, 3, 4]), "opt": rng.pick(["adam", "sgd"]),
             "variant": rng.pick(["two_instances", "reset_rerun", "both"]),
@@ -181,6 +196,12 @@ def _check_batcher(cfg, res, viol):
              "split_ratio_fallback")
     if len(train) == 0:
         bump(probes, "train_empty")
+    if n >= 32768:
+        bump(probes, "n_beyond_int16")
+    if n >= 65536:
+        bump(probes, "n_beyond_uint16")
+    if cfg["epochs"] >= 5:
+        bump(probes, "fifth_epoch_or_later")
     bs = n if b is None else b
     for ep in range(cfg["epochs"]):
         got = [np.asarray(x).copy() for x in bt]
@@ -371,6 +392,8 @@ def _record_batches(pt):
 
 def _run_C(plan, res, viol):
     bump(res["probes"], "workload_C")
+    if plan["seed"] >= 2 ** 32:
+        bump(res["probes"], "seed_ge_2_32")
     opt = _opt(plan["opt"], 1e-3)
     kw = dict(num_iters=plan["iters"], optimizer_params=opt, batch_size=plan["b"])
 
